@@ -1162,16 +1162,28 @@ def unpack_named_tuple(spec: ValueSpec) -> Expression:
         lines.append(f"def {method_name}({method_args}):")
     with lines.indent():
         field_type = spec.builder.get_type_name_identifier(spec.type)
-        lines.append("fields = []")
-        for idx, unpacker in zip(indices, unpackers):
-            # only a missing item selects the defaults, an IndexError
-            # raised while unpacking a present item must not be swallowed
-            with lines.indent("try:"):
-                lines.append(f"item = value[{idx}]")
-            with lines.indent("except IndexError:"):
-                lines.append(f"return {field_type}(*fields)")
-            lines.append(f"fields.append({unpacker})")
-        lines.append(f"return {field_type}(*fields)")
+        if as_dict:
+            # a missing key selects the default of that member only
+            lines.append("fields = {}")
+            for idx, unpacker in zip(indices, unpackers):
+                with lines.indent("try:"):
+                    lines.append(f"item = value[{idx}]")
+                with lines.indent("except KeyError:"):
+                    lines.append("pass")
+                with lines.indent("else:"):
+                    lines.append(f"fields[{idx}] = {unpacker}")
+            lines.append(f"return {field_type}(**fields)")
+        else:
+            lines.append("fields = []")
+            for idx, unpacker in zip(indices, unpackers):
+                # only a missing item selects the defaults, an IndexError
+                # raised while unpacking a present item must not be swallowed
+                with lines.indent("try:"):
+                    lines.append(f"item = value[{idx}]")
+                with lines.indent("except IndexError:"):
+                    lines.append(f"return {field_type}(*fields)")
+                lines.append(f"fields.append({unpacker})")
+            lines.append(f"return {field_type}(*fields)")
     lines.append(
         f"setattr({spec.cls_attrs_name}, '{method_name}', {method_name})"
     )
